@@ -737,6 +737,19 @@ namespace internal
 				MOMO_ASSERT(!mKeyIteratorRemove);
 				mKeyIteratorRemove = mHashMultiMap.Find(raw);
 				MOMO_ASSERT(!!mKeyIteratorRemove);
+				if (!!mKeyIteratorAdd && mKeyIteratorAdd == mKeyIteratorRemove)
+				{
+					// Find has returned the key just added for the same raw
+					const HashTraits& hashTraits = mHashMultiMap.GetHashTraits();
+					for (KeyIterator keyIter = mHashMultiMap.GetKeyBounds().GetBegin(); !!keyIter; ++keyIter)
+					{
+						if (mKeyIteratorAdd != keyIter && hashTraits.IsEqual(raw, keyIter->key))
+						{
+							mKeyIteratorRemove = keyIter;
+							break;
+						}
+					}
+				}
 			}
 
 			void RejectRemove() noexcept
